@@ -44,7 +44,7 @@ type cdpSnap struct {
 	NetFees   map[appAsset]sdk.Int
 	NetFound  map[appAsset]bool
 	Lockers   map[uint64]lockertypes.Locker
-	LockerTot map[appAsset]sdk.Int // locker lookup table DepositedAmount per (app, asset)
+	LockerTot map[appAsset]sdk.Int           // locker lookup table DepositedAmount per (app, asset)
 	Bal       map[string]map[string]*big.Int // account label -> denom -> amount
 	Supply    map[string]*big.Int
 	ESM       map[uint64]esmtypes.ESMStatus
@@ -57,6 +57,8 @@ type cdpSnap struct {
 	ExtFees   map[uint64]sdk.Int // booked fees of externally initiated auctions, per debt asset
 	BidsV2    map[uint64]auctionsV2types.Bid
 	Reserve   map[appAsset]sdk.Int // generation-2 app reserve funds
+	EsmDebt   map[appAsset]sdk.Int // debt registered for emergency redemption (esm AssetToAmount, debt side)
+	EsmColl   map[appAsset]sdk.Int // collateral held for emergency redemption (esm AssetToAmount, collateral side)
 }
 
 func modLabel(name string) string { return "mod:" + name }
@@ -149,6 +151,19 @@ func (u *cdpU) snapAt(ctx sdk.Context) *cdpSnap {
 	}
 	for _, l := range a.LockerKeeper.GetLockers(ctx) {
 		s.Lockers[l.LockerId] = l
+	}
+	s.EsmDebt, s.EsmColl = map[appAsset]sdk.Int{}, map[appAsset]sdk.Int{}
+	for _, app := range u.cdpApps {
+		for _, x := range a.EsmKeeper.GetAllAssetToAmount(ctx, app) {
+			if x.Amount.IsNil() {
+				continue
+			}
+			if x.IsCollateral {
+				s.EsmColl[appAsset{app, x.AssetID}] = x.Amount
+			} else {
+				s.EsmDebt[appAsset{app, x.AssetID}] = x.Amount
+			}
+		}
 	}
 	rd := func(label string, addr sdk.AccAddress) {
 		m := map[string]*big.Int{}
